@@ -38,7 +38,7 @@ def tiny_family(maxn=2, nvars=1):
             for inout in ([], [1]):
                 out.append({"n": n, "succ": [c[0] for c in combo], "dsucc": [c[1] for c in combo],
                             "used": [c[2] for c in combo], "assigned": [c[3] for c in combo],
-                            "nvars": nvars, "predef": [], "premaybe": [], "inout": inout, "iu": True})
+                            "nvars": nvars, "predef": [], "premaybe": [], "inout": inout, "iu": True, "iev": 0})
     return out
 
 
@@ -57,7 +57,7 @@ def random_graph(rng, n, nvars):
     premaybe = sorted(set(predef) | set(sub(0.15)))
     return {"n": n, "succ": succ, "dsucc": dsucc, "used": [sub(0.3) for _ in blocks],
             "assigned": [sub(0.3) for _ in blocks], "nvars": nvars, "predef": predef,
-            "premaybe": premaybe, "inout": sub(0.2), "iu": True}
+            "premaybe": premaybe, "inout": sub(0.2), "iu": True, "iev": 0}
 
 
 def real_runs_abstract(graphs, seed, per_graph):
@@ -289,7 +289,7 @@ def selftest(ctx):
     import df_real
 
     g = {"n": 4, "succ": [[2, 3], [4], [4], []], "dsucc": [[], [], [], []], "used": [[], [1], [1], []],
-         "assigned": [[], [2], [2], []], "nvars": 2, "predef": [1], "premaybe": [1], "inout": [], "iu": True}
+         "assigned": [[], [2], [2], []], "nvars": 2, "predef": [1], "premaybe": [1], "inout": [], "iu": True, "iev": 0}
     runs = []
     for mode in ("live", "assign"):
         r = df_real.run(g, mode, df_real.Sched("min", 0))
